@@ -482,7 +482,7 @@ package types
 //@    (forall y5 *SelectLabelType :: y5.Mode != nil) && (forall y6 *BranchCaseType :: y6.Mode != nil) &&
 //@    (forall y7 *UpType :: y7.From != nil && y7.To != nil) && (forall y8 *DownType :: y8.From != nil && y8.To != nil)
 
-//@ invariant[C09] modesNN()
+// (the sweep's state invariant, which includes modesNN(), is stated once in package process)
 
 //@ contract interface Modality.String(self)
 //@   requires[C09] self != nil
@@ -649,8 +649,13 @@ package types
 //@    (is(a, DownType) ==> sameTag(DownType(a).From, DownType(b).From) && sameTag(DownType(a).To, DownType(b).To) && isCopy(DownType(a).Continuation, DownType(b).Continuation))
 //@ lemma C09.copyReady: forall a SessionType, b SessionType, D Set[string], V Arr[string]LabelledType :: shapeOK(a) && isCopy(a, b) && labelsOK(a, D) && base(modeOf(a)) && rmodes(a, D, V) ==> labelsOK(b, D) && rmodes(b, D, V) && base(modeOf(b)) && tag(modeOf(b)) == tag(modeOf(a)) by induction on size(a)
 //@ contract CopyType
+//@   heapwf
 //@   ensures[C09] C09.copyNil: (orig == nil) == (result == nil)
 //@   ensures[C09] C09.copyShape: orig != nil ==> shapeOK(result)
 //@   ensures[C09] C09.copyIso: orig != nil ==> isCopy(orig, result)
 //@   loop[C09] 1 invariant len(branches) == len(p.Branches) && (forall k int :: 0 <= k && k < i ==> branches[k].Label == p.Branches[k].Label && branches[k].SessionType != nil && allocated(branches[k].SessionType) && size(branches[k].SessionType) >= 0 && shapeOK(branches[k].SessionType) && isCopy(p.Branches[k].SessionType, branches[k].SessionType))
 //@   loop[C09] 2 invariant len(branches) == len(p.Branches) && (forall k int :: 0 <= k && k < i ==> branches[k].Label == p.Branches[k].Label && branches[k].SessionType != nil && allocated(branches[k].SessionType) && size(branches[k].SessionType) >= 0 && shapeOK(branches[k].SessionType) && isCopy(p.Branches[k].SessionType, branches[k].SessionType))
+
+// the environment built from definitions that passed the checks is ready
+//@ contract SanityChecksTypeDefinitions
+//@   ensures[C09] C09.defsEnvReady: result == nil ==> readyEnv(defNames(typesDefs, len(typesDefs)), defVals(typesDefs, len(typesDefs)))
